@@ -15,8 +15,12 @@ DECL_CTX = ('NamespaceDecl', 'CXXRecordDecl', 'ClassTemplateSpecializationDecl',
 
 
 class AST:
-    def __init__(self, docs):
+    def __init__(self, docs, filt='boost::mqtt5'):
         self.docs = docs
+        comps = [c for c in filt.split('::') if c]
+        # namespaces enclosing the dumped root namespace (relative to boost::mqtt5)
+        self.root_name = comps[-1] if comps else None
+        self.root_ctx = [c for c in comps[:-1] if c not in ('boost', 'mqtt5')]
         self.byid = {}
         self.parent = {}
         self.records = {}     # qualified name -> record decl (definition)
@@ -28,7 +32,10 @@ class AST:
         for d in docs:
             self._prepass(d, None)
         for d in docs:
-            self._index(d, [])
+            if d.get('kind') == 'NamespaceDecl' and d.get('name') == self.root_name:
+                self._index(d, list(self.root_ctx))
+            else:
+                self._index(d, [])
 
     # -- source locations -------------------------------------------------
     def _loc(self, l):
@@ -68,14 +75,15 @@ class AST:
         k = n.get('kind')
         name = n.get('name')
         if k in ('NamespaceDecl',):
-            sub = ctx + [name] if name else ctx
+            # qualified names are relative to boost::mqtt5 whatever the dump filter was
+            sub = ctx + [name] if (name and not (name in ('mqtt5', 'boost') and not ctx)) else ctx
             for c in n.get('inner', []):
                 self._index(c, sub)
             return
         if k in ('CXXRecordDecl', 'ClassTemplateSpecializationDecl'):
             nm = name or '_anon'
             if k == 'ClassTemplateSpecializationDecl':
-                nm += '<' + ','.join(template_args(n)) + '>'
+                nm += '<' + ', '.join(a.replace('boost::mqtt5::', '') for a in template_args(n)) + '>'
             q = '::'.join(ctx + [nm])
             n['_qname'] = q
             if n.get('completeDefinition') or any(c.get('kind') == 'FieldDecl' or c.get('kind') == 'CXXMethodDecl' for c in n.get('inner', [])):
@@ -224,7 +232,7 @@ def dump_ast(inst_cpp, filt, repo_include, cache_dir=None, extra=()):
                 h.update(open(p, 'rb').read())
         key = os.path.join(cache_dir, h.hexdigest()[:24] + '.json')
         if os.path.exists(key):
-            return AST(load_docs(open(key).read())), cmd
+            return AST(load_docs(open(key).read()), filt), cmd
     r = subprocess.run(cmd, stdout=subprocess.PIPE, stderr=subprocess.PIPE, text=True)
     if r.returncode != 0:
         raise RuntimeError('clang++ failed on %s:\n%s' % (inst_cpp, r.stderr[-4000:]))
@@ -233,4 +241,4 @@ def dump_ast(inst_cpp, filt, repo_include, cache_dir=None, extra=()):
         tmp = key + '.%d.tmp' % os.getpid()
         open(tmp, 'w').write(r.stdout)
         os.replace(tmp, key)
-    return AST(load_docs(r.stdout)), cmd
+    return AST(load_docs(r.stdout), filt), cmd
